@@ -82,7 +82,7 @@ PROPS: dict = {
                     "(permutation, duplicate id, out-of-range id, re-insertion without reset): refused or the ranks, vs the model; "
                     "non-trivial = fit with more than one cluster"},
     "C20": {"suites": [monitor.suite_monitor], "rule": RULE_MON, "proof_modules": ["BBProps.C20", "BBProofs.Monitor", "BBModel.Monitor"]},
-    "C15": {"suites": [cli.suite_run, cli.suite_multiround],
+    "C15": {"suites": [cli.suite_run, cli.suite_multiround, gen.suite_gen({"validate"})],
             "rule": "`bb run` through typer's CliRunner in-process (and as a subprocess of /venv/bin/bb when the memory monitor is on) over random "
                     "combinations of: six merge x six refine criteria, refine-num 0-2, refine-rounds none/0-2, recluster rounds 0-2 with and "
                     "without shuffle (the shuffles the command draws are captured and replayed), threshold changes of both signs, "
